@@ -678,6 +678,8 @@ def model_syms(models):
 
 def refs_optional(corpus, key, optname):
     """reference entries marked optional for an option set in <corpus>.ref.h: //OPTIONAL <key> : optname,optname"""
+    # the table option sets export the same entities as the option set they extend
+    optname = {'c_fnames_uniq_fptrs': 'c_fnames_uniq', 'c_uniq': 'c'}.get(optname, optname)
     txt = open(os.path.join(CORPUS, corpus + '.ref.h')).read()
     for m in re.finditer(r'//OPTIONAL\s+(.*\S)\s+:\s+(.*)$', txt, flags=re.M):
         if normkey(m.group(1)) == key and (optname in [x.strip() for x in m.group(2).split(',')] or m.group(2).strip() == '*'):
